@@ -81,7 +81,7 @@ CHECKS = {
          "DESIGN.md §5 C01"),
  "C04": ("exploration",
          "runtime physical symlink resolver over dst after Unpack in a chroot arena; refusal clause for absolute / escaping link entries",
-         "Same workload as C01. After each Unpack every symlink under dst is resolved component-wise with Lstat/Readlink inside the chroot and must end inside the real path of dst unless allow-listed; an archive with an absolute or escaping link entry (judged at the place the link is created) must not unpack successfully. Links led outside by another link on the way (".." after a component that is a symlink) are classified separately (dotdot-after-symlink-component; repaired in /repo, see known_findings.json).",
+         "Same workload as C01. After each Unpack every symlink under dst is resolved component-wise with Lstat/Readlink inside the chroot and must end inside the real path of dst unless allow-listed; an archive with an absolute or escaping link entry (judged at the place the link is created) must not unpack successfully. Links led outside by another link on the way (a dot-dot segment after a component that is a symlink) are classified separately (dotdot-after-symlink-component; repaired in /repo, see known_findings.json).",
          "Links resolving nowhere are not escapes; with an allow-list only the physical resolver judges.",
          "DESIGN.md §5 C04"),
  "C06": ("exploration",
